@@ -4,7 +4,9 @@ Scale graphs of depth 1..2 (quick) / 1..3 (thorough) over {Linear, Polynomial (0
 property), Table (ascending/descending), Add, Subtract} with EVERY wiring of input sources to {raw, earlier scale},
 on raw data of every real numeric type; scaling properties on channel / group / root with every precedence
 conflict, with / without NI_Number_Of_Scales, NI_Scaling_Status in {absent, unscaled, scaled} per level; DAQmx
-channels whose scales read raw scalers by id.
+channels whose scales read raw scalers by id.  Sensor scalings (thermocouple, RTD, thermistor, strain; values judged by
+C17/C18) are put through the same structural probes: windows equal slices of the scaled data (NaN samples included),
+lazy == eager, repeated reads agree, raw data untouched.
 """
 import io
 import itertools
@@ -105,8 +107,9 @@ def tol_ok(got, exp, mag, eps):
     return abs(got - exp) <= 8 * eps * max(1.0, mag)
 
 
-def check_channel_file(hist, specs, t, seed, scalers_expected=None):
-    """-> (n_checks, problems)"""
+def check_channel_file(hist, specs, t, seed, scalers_expected=None, opaque=False):
+    """-> (n_checks, problems).  opaque: a sensor scaling whose values C17/C18 judge; here only the statement's structural clauses
+    (elementwise = windows equal slices, lazy == eager, repeatable, raw data untouched) are decided"""
     # small raw values: swap the pool of this type for the duration of the encoding
     saved = G.POOLS.get(t)
     if t in G.POOLS:
@@ -120,6 +123,8 @@ def check_channel_file(hist, specs, t, seed, scalers_expected=None):
     n = 0
     if specs is None:
         exp = None
+    elif opaque:
+        exp = 'opaque'
     else:
         if scalers_expected is not None:
             sc = {sid: [float(int.from_bytes(v, 'little', signed=True)) for v in ref.scaler_values[A][sid]] for sid in scalers_expected}
@@ -157,7 +162,10 @@ def check_channel_file(hist, specs, t, seed, scalers_expected=None):
     if r[0] != 'ok':
         return n, [('raised', 'channel[:] raised %s: %s' % (r[1], r[2]))]
     full = r[1]
-    if exp is None:
+    if opaque:
+        if H.norm_array(full) == H.norm_array(ech.read_data(scaled=False)):
+            probs.append(('not-scaled', 'a sensor scaling is in scope but the data equals the raw data'))
+    elif exp is None:
         # unscaled expected: channel data equals the raw data
         if H.norm_array(full) != H.norm_array(ech.read_data(scaled=False)):
             probs.append(('scaled-although-marked-scaled', 'data differs from raw data although no scaling is in scope'))
@@ -278,6 +286,11 @@ def _worker(item):
                 hist = custom_values_file(t, R.props_for(specs, number_of_scales=with_number))
                 n, probs = check_channel_file(hist, specs, t, seed)
                 record({'part': 'deep', 'raw': t, 'depth': len(specs), 'with_number': with_number, 'seed': seed}, specs, n, probs)
+    elif kind == 'opaque':
+        for ci in payload:
+            name, hist = opaque_cases()[ci]
+            n, probs = check_channel_file(hist, [{'type': name.split('/')[0]}], 'opaque', seed, opaque=True)
+            record({'part': 'opaque', 'raw': name.split('/')[-1], 'case': ci, 'name': name, 'seed': seed}, [{'type': name.split('/')[0]}], n, probs)
     elif kind == 'daqmx':
         for specs in payload:
             props = R.props_for(specs)
@@ -286,6 +299,63 @@ def _worker(item):
             n, probs = check_channel_file(hist, specs, 'daqmx', seed, scalers_expected=[0, 1])
             record({'part': 'daqmx', 'raw': 'daqmx', 'specs': specs, 'seed': seed}, specs, n, probs)
     return res
+
+
+_OPAQUE = []
+
+
+def _hexvals(t, vals):
+    fmt = G.TYPES[t][2]
+    out = []
+    for v in vals:
+        if fmt in 'fd':
+            out.append(struct.pack('<' + fmt, v).hex())
+        else:
+            out.append(struct.pack('<' + fmt, 0 if v != v else int(v)).hex())
+    return out
+
+
+def opaque_cases():
+    """sensor scalings (thermocouple both directions and all types, RTD, thermistor, strain) on float and integer raw data whose
+    six values fall into different pieces of the piecewise functions; float data carries one NaN sample (thermocouples only: the
+    conversion is total) - scaling any window must equal the window of the scaled data"""
+    if _OPAQUE:
+        return _OPAQUE
+    nan = float('nan')
+    codes = {'B': 10047, 'E': 10055, 'J': 10072, 'K': 10073, 'N': 10077, 'R': 10082, 'S': 10085, 'T': 10086}
+    one = [F._uprop('NI_Number_Of_Scales', 1)]
+    for letter, code in sorted(codes.items()):
+        for direction in (0, 1):
+            for t in ('DoubleFloat', 'SingleFloat', 'Int16'):
+                for nanpos in ((1, 4, None) if t != 'Int16' else (None,)):
+                    vals = [-3000.0, 300.0, 1000.0, 20000.0, 5000.0, 12000.0] if direction == 0 else [-100.0, 20.0, 0.0, 100.0, 700.0, 1200.0]
+                    if nanpos is not None:
+                        vals[nanpos] = nan
+                    hist = [G.seg([(A, ['FULL', t, 3, _hexvals(t, vals)], one + F.thermocouple_props(0, code, direction)),
+                                   (B, ['FULL', 'Int8', 1])], chunks=2)]
+                    _OPAQUE.append(('Thermocouple/%s/dir%d/nan%s/%s' % (letter, direction, nanpos, t), hist))
+    for t in ('DoubleFloat', 'SingleFloat'):
+        vals = [0.11, 0.12, 0.09, 0.13, 0.08, 0.14]
+        _OPAQUE.append(('RTD/%s' % t, [G.seg([(A, ['FULL', t, 3, _hexvals(t, vals)], one + F.rtd_props(0)), (B, ['FULL', 'Int8', 1])], chunks=2)]))
+        pre = 'NI_Scale[0]_Thermistor_'
+        for exc, val in ((10322, 2.5), (10134, 1e-4)):
+            th = one + [F._sprop('NI_Scale[0]_Scale_Type', 'Thermistor'), F._uprop(pre + 'Excitation_Type', exc), F._dprop(pre + 'Excitation_Value', val),
+                        F._uprop(pre + 'Resistance_Configuration', 3), F._dprop(pre + 'R1_Reference_Resistance', 5000.0),
+                        F._dprop(pre + 'Lead_Wire_Resistance', 10.0), F._dprop(pre + 'A', 1.295361e-3), F._dprop(pre + 'B', 2.343159e-4),
+                        F._dprop(pre + 'C', 1.018703e-7), F._dprop(pre + 'Temperature_Offset', 273.15), F._uprop(pre + 'Input_Source', 0xFFFFFFFF)]
+            vals = [1.0, 0.5, 1.5, 0.8, 2.0, 0.3] if exc == 10322 else [0.5, 0.4, 0.9, 0.2, 1.0, 0.7]
+            _OPAQUE.append(('Thermistor/%d/%s' % (exc, t), [G.seg([(A, ['FULL', t, 3, _hexvals(t, vals)], th), (B, ['FULL', 'Int8', 1])], chunks=2)]))
+        pre = 'NI_Scale[0]_Strain_'
+        for cfg in (10183, 10184, 10185, 10188, 10189, 10271, 10272):
+            for vinit in (0.0, 0.001):
+                st = one + [F._sprop('NI_Scale[0]_Scale_Type', 'Strain'), F._uprop(pre + 'Configuration', cfg), F._dprop(pre + 'Poisson_Ratio', 0.3),
+                            F._dprop(pre + 'Gage_Resistance', 350.0), F._dprop(pre + 'Lead_Wire_Resistance', 2.0),
+                            F._dprop(pre + 'Initial_Bridge_Voltage', vinit), F._dprop(pre + 'Gage_Factor', 2.1),
+                            F._dprop(pre + 'Bridge_Shunt_Calibration_Gain_Adjustment', 1.05), F._dprop(pre + 'Voltage_Excitation', 2.5),
+                            F._uprop(pre + 'Input_Source', 0xFFFFFFFF)]
+                vals = [0.001, -0.002, 0.0, 0.004, -0.001, 0.003]
+                _OPAQUE.append(('Strain/%d/%g/%s' % (cfg, vinit, t), [G.seg([(A, ['FULL', t, 3, _hexvals(t, vals)], st), (B, ['FULL', 'Int8', 1])], chunks=2)]))
+    return _OPAQUE
 
 
 PLACE_OPTS = ['none', 'G1', 'G2', 'G1-scaled', 'G1-unscaled', 'G2-zero', 'G1-nonum']
@@ -355,6 +425,9 @@ def run(ctx):
         deep.append((chain, True))
         deep.append((chain, False))
     items.append(('deep', deep, ctx.seed))
+    nop = len(opaque_cases())
+    for i in range(0, nop, 12):
+        items.append(('opaque', list(range(i, min(nop, i + 12))), ctx.seed))
     m = merge(ctx.map(_worker, items))
     c = m['counters']
     cov = {'evaluations': c['checks'], 'files': c['files'], 'distinct_nontrivial': c['nontrivial'],
@@ -375,6 +448,9 @@ def replay(case):
         specs = [dict(LIN1 if i % 2 else LIN, src=(None if i == 0 else i - 1)) for i in range(k)]
         hist = custom_values_file(case['raw'], R.props_for(specs, number_of_scales=case['with_number']))
         n, probs = check_channel_file(hist, specs, case['raw'], case.get('seed', 0))
+    elif case['part'] == 'opaque':
+        name, hist = opaque_cases()[case['case']]
+        n, probs = check_channel_file(hist, [{'type': name.split('/')[0]}], 'opaque', case.get('seed', 0), opaque=True)
     elif case['part'] == 'placement':
         hist, expect = placement_file(tuple(case['combo']), case.get('late', False), ODD if case.get('odd_name') else None)
         n, probs = check_channel_file(hist, expect, 'Int16', case.get('seed', 0))
